@@ -39,6 +39,9 @@ pub struct Viol {
     pub path: String,
     pub q: Option<String>,
     pub detail: String,
+    /// echo classes: the Normalized Path of the node the path was reported for
+    #[serde(default)]
+    pub want_path: Option<String>,
 }
 
 #[derive(Default, Clone, Debug, Serialize, Deserialize)]
@@ -157,20 +160,90 @@ pub fn query_features(q: &str) -> QFeatures {
     f
 }
 
+/// The string literals of a query text: (quote character, raw inner text).
+pub fn string_literals(q: &str) -> Vec<(char, String)> {
+    let cs: Vec<char> = q.chars().collect();
+    let mut out = vec![];
+    let mut i = 0;
+    while i < cs.len() {
+        let c = cs[i];
+        if c == '\'' || c == '"' {
+            let mut raw = String::new();
+            i += 1;
+            while i < cs.len() && cs[i] != c {
+                if cs[i] == '\\' && i + 1 < cs.len() {
+                    raw.push(cs[i]);
+                    i += 1;
+                }
+                raw.push(cs[i]);
+                i += 1;
+            }
+            out.push((c, raw));
+        }
+        i += 1;
+    }
+    out
+}
+
+fn has_escape_other(raw: &str) -> bool {
+    let cs: Vec<char> = raw.chars().collect();
+    let mut i = 0;
+    while i < cs.len() {
+        if cs[i] == '\\' {
+            if i + 1 < cs.len() && !(cs[i + 1] == '\\' || cs[i + 1] == '/') {
+                return true;
+            }
+            i += 1;
+        }
+        i += 1;
+    }
+    false
+}
+
+/// The part of a reported path from the first step at which it departs from the Normalized Path
+/// of the node it was reported for (None if it does not depart).
+fn departing_tail<'p>(reported: &'p str, want: &str) -> Option<&'p str> {
+    let loc = npath::parse(want)?;
+    let mut pos = 1;
+    if !reported.starts_with('$') {
+        return Some(reported);
+    }
+    for st in &loc {
+        let t = &npath::render(std::slice::from_ref(st))[1..];
+        if reported[pos..].starts_with(t) {
+            pos += t.len();
+        } else {
+            return Some(&reported[pos..]);
+        }
+    }
+    if pos == reported.len() {
+        None
+    } else {
+        Some(&reported[pos..])
+    }
+}
+
+/// A listed open finding matches only an echo violation whose reported path departs from the node's
+/// Normalized Path exactly at a step that is the echo of one of the query's own name selectors of the
+/// listed kind. Anything else about the same property is still a violation.
 pub fn kf_match<'a>(v: &Viol, findings: &'a [Finding]) -> Option<&'a Finding> {
+    if !v.class.starts_with("echo-") {
+        return None;
+    }
+    let (Some(q), Some(want)) = (&v.q, &v.want_path) else { return None };
+    let tail = departing_tail(&v.path, want)?;
+    let lits = string_literals(q);
     for f in findings {
         if f.status != "open" {
             continue;
         }
         let cl = f.predicate.get("classifier").and_then(|x| x.as_str()).unwrap_or("");
-        if cl != "c09.echo" || !v.class.starts_with("echo-") {
+        if cl != "c09.echo" {
             continue;
         }
-        let Some(q) = &v.q else { continue };
-        let qf = query_features(q);
-        let ok = match f.predicate.get("query_feature").and_then(|x| x.as_str()) {
-            Some("double_quoted_name") => qf.double_quoted,
-            Some("escape_other_than_bs_slash") => qf.escape_other,
+        let ok = match f.predicate.get("departs_at_echo_of").and_then(|x| x.as_str()) {
+            Some("double_quoted_name_selector") => lits.iter().any(|(qc, raw)| *qc == '"' && tail.starts_with(&format!("['\"{}\"']", raw))),
+            Some("single_quoted_name_selector_with_escape_other_than_bs_slash") => lits.iter().any(|(qc, raw)| *qc == '\'' && has_escape_other(raw) && tail.starts_with(&format!("['{}']", raw))),
             _ => false,
         };
         if ok {
@@ -225,7 +298,7 @@ impl<'f> Exec<'f> {
     }
 
     fn viol(&self, i: usize, class: &str, path: &str, q: Option<&str>, detail: String) -> Viol {
-        Viol { op_index: i, class: class.into(), path: path.into(), q: q.map(|s| s.to_string()), detail }
+        Viol { op_index: i, class: class.into(), path: path.into(), q: q.map(|s| s.to_string()), detail, want_path: None }
     }
 
     /// An echo violation that matches a listed open finding is recorded and the history goes on.
@@ -352,7 +425,9 @@ impl<'f> Exec<'f> {
                 _ => None,
             };
             if let Some((c, d)) = v {
-                pending.push(self.viol(i, c, &path, Some(q), d));
+                let mut vv = self.viol(i, c, &path, Some(q), d);
+                vv.want_path = loc.as_ref().map(|l| npath::render(l));
+                pending.push(vv);
                 out.push((path, None));
             } else {
                 out.push((path, loc));
@@ -501,7 +576,26 @@ fn gen_query(rng: &mut Rng, model: &Value, names: &[String]) -> String {
             let f = rng.pick(&["?@", "?@==@", "?@>0", "?@[0]", "?count(@.*)>0", "?length(@)>=0", "?@.a", "?!@.a", "?@!=null"]);
             q.push_str(&format!("[{}]", f));
         }
-        5 => q.push_str(*rng.pick(&["[0:2]", "[::2]", "[-1:]", "[::-1]", "[1:]"])),
+        5 => {
+            if rng.chance(1, 3) {
+                q.push_str(*rng.pick(&["[0:2]", "[::2]", "[-1:]", "[::-1]", "[1:]", "[::-2]", "[::-3]", "[::3]"]));
+            } else {
+                let mut sl = String::from("[");
+                if rng.chance(1, 2) {
+                    sl.push_str(&rng.range(-9, 9).to_string());
+                }
+                sl.push(':');
+                if rng.chance(1, 2) {
+                    sl.push_str(&rng.range(-9, 9).to_string());
+                }
+                if rng.chance(2, 3) {
+                    sl.push(':');
+                    sl.push_str(&(*rng.pick(&[1i64, 2, 3, -1, -2, -3, -4, 4])).to_string());
+                }
+                sl.push(']');
+                q.push_str(&sl);
+            }
+        }
         6 => {
             let n = some_name(rng);
             let sel = name_sel(rng, &n);
@@ -623,7 +717,8 @@ fn gen_miss(rng: &mut Rng, model: &Value, stats: &mut Stats) -> Loc {
 }
 
 pub fn gen_doc(rng: &mut Rng) -> Value {
-    let p = DocParams { max_nodes: 6 + rng.below(9), max_depth: 1 + rng.below(4), names: gen::NAMES_ADV, max_width: 4 };
+    let wide = rng.chance(1, 4);
+    let p = DocParams { max_nodes: if wide { 10 + rng.below(12) } else { 6 + rng.below(9) }, max_depth: if wide { 1 + rng.below(2) } else { 1 + rng.below(4) }, names: gen::NAMES_ADV, max_width: if wide { 9 } else { 4 } };
     let mut d = gen::gen_doc(rng, &p);
     // pairs of names where one is the JSON-Pointer image / escape image of another, on purpose
     if rng.chance(1, 3) {
